@@ -151,6 +151,86 @@ def _nonempty_text(e: ast.AST, f: Optional[Func] = None) -> bool:
     return False
 
 
+def _empty_on_failure_keys(ctx) -> Set[str]:
+    """keys of the per-row records that a failed / timed-out job leaves as `[]` (read off the record displays of the
+    job functions)"""
+    keys: Set[str] = set()
+    for f in (ctx.prog.func(SAFE), ctx.prog.func(SINGLE), pair_job(ctx)):
+        for d in [x for x in own_nodes(f.node) if isinstance(x, ast.Dict)]:
+            for k, v in zip(d.keys, d.values):
+                if k is not None and isinstance(v, ast.List) and not v.elts and isinstance(k, ast.Constant) and isinstance(k.value, str):
+                    keys.add(k.value)
+    return keys
+
+
+def rule_x14(ctx) -> None:
+    """A failed or timed-out job leaves its record with empty lists (`smiles`, `mcs_results`, ...).  The stage code that
+    walks over the records of *all* reactions afterwards runs outside the per-row handlers: `max()` / `min()` of such a
+    list without a default raises ValueError for the failed reaction, and the Balancer drops every row of the batch."""
+    ctx.rule("C11-X14", "stage code outside the per-row handlers takes no min() / max() without default over a list a failed job leaves empty", 1)
+    prog = ctx.prog
+    keys = _empty_on_failure_keys(ctx)
+    ctx.require(len(keys) >= 3, "the failure records of the per-row jobs no longer carry empty lists (%s)" % sorted(keys))
+    jobs = {SAFE, SINGLE, pair_job(ctx).qualname, RUN}
+    inside = ctx.res.reachable(sorted(jobs - {RUN}), ctx.graph)
+    stage = {q for q in ctx.res.reachable(["synrbl.mcs_search.MCSSearch.find"], ctx.graph) if q.startswith("synrbl.") and q not in inside}
+    n = 0
+    for q in sorted(stage):
+        f = prog.functions.get(q)
+        if f is None:
+            continue
+        n += 1
+        for c in calls(f):
+            if not (isinstance(c.func, ast.Name) and c.func.id in ("max", "min") and len(c.args) == 1 and not any(k.arg == "default" for k in c.keywords)):
+                continue
+            exprs = [c.args[0]]
+            if isinstance(c.args[0], ast.Name):
+                exprs += [v for _s, v, _i in assignments_to(f, c.args[0].id)]
+            hit = None
+            for e in exprs:
+                its = [g.iter for x in ast.walk(e) if isinstance(x, (ast.GeneratorExp, ast.ListComp)) for g in x.generators] + [e]
+                for it in its:
+                    for y in ast.walk(it):
+                        if isinstance(y, ast.Subscript) and isinstance(y.slice, ast.Constant) and y.slice.value in keys:
+                            hit = y
+            if hit is None:
+                continue
+            # a length / truth test of that list around the call makes it safe
+            cfg = CFG(f.node)
+            st_ = c
+            while not isinstance(st_, ast.stmt):
+                st_ = getattr(st_, "_parent", None)
+            nid = cfg.node_of(st_)
+            guarded = any(unparse(hit) in unparse(g_) for g_, _p in (cfg.guards(nid) if nid is not None else []))
+            ctx.instance("C11-X14", "%s: %s over %s (guarded: %s)" % (q.split("synrbl.", 1)[-1], c.func.id, unparse(hit), guarded), f.loc(c), ok=guarded)
+            if not guarded:
+                ctx.finding("C11-X14", "%s:extreme-of-possibly-empty:%s" % (q.split("synrbl.", 1)[-1], hit.slice.value), f.loc(c), "%s takes %s() over %s without a default: a failed or timed-out job leaves that list empty, the call raises ValueError outside every per-row handler, and the whole batch is lost with it" % (f.name, c.func.id, unparse(hit)))
+    ctx.instance("C11-X14", "%d stage-level function(s) of the MCS stage inspected; lists empty on failure: %s" % (n, sorted(keys)), "", ok=True)
+
+
+def rule_x15(ctx) -> None:
+    """joblib's `Parallel(timeout=..)` is not a per-job limit: when it expires, TimeoutError leaves the whole Parallel
+    call - every result of the map is lost, not just the slow job's.  The per-row jobs carry their own watchdog."""
+    ctx.rule("C11-X15", "no joblib map on the MCS path is given a `timeout` (it aborts the whole map, not one job)", 2)
+    prog = ctx.prog
+    scope = {q for q in ctx.res.reachable(["synrbl.mcs_search.MCSSearch.find", RUN], ctx.graph) if q.startswith("synrbl.")}
+    n = 0
+    for q in sorted(scope):
+        f = prog.functions.get(q)
+        if f is None:
+            continue
+        for c in calls(f):
+            if unparse(c.func).split(".")[-1] != "Parallel":
+                continue
+            n += 1
+            t = next((k for k in c.keywords if k.arg == "timeout"), None)
+            ok = t is None or (isinstance(t.value, ast.Constant) and t.value.value is None)
+            ctx.instance("C11-X15", "%s: %s" % (q.split("synrbl.", 1)[-1], unparse(c)[:60]), f.loc(c), ok=ok)
+            if not ok:
+                ctx.finding("C11-X15", "%s:joblib-map-timeout" % q.split("synrbl.", 1)[-1], f.loc(c), "Parallel(.., timeout=%s): when the wait for a result exceeds it joblib raises TimeoutError out of the whole map, outside every per-row handler: a few slow reactions in one dispatch batch cost every row of the batch" % unparse(t.value)[:30])
+    ctx.require(n >= 2, "fewer than 2 joblib maps found on the MCS path (%d)" % n)
+
+
 def check(ctx) -> None:
     prog = ctx.prog
     pl = Pipeline(ctx)
@@ -479,3 +559,5 @@ def check(ctx) -> None:
     # (shared with C06-B14)
     c06.rule_fence_handler_total(ctx, ctx.pipeline_reachable(), "C11-X12")
     c06.rule_b14(ctx, ctx.pipeline_reachable(), "C11-X13")
+    rule_x14(ctx)
+    rule_x15(ctx)
